@@ -522,6 +522,48 @@ theorem operator_rows_complete (k : Kind) (op : OpK) :
 object it returns — `Dotprops` has no content hash that would catch a stale tree after `x *= k`. -/
 theorem gen_dotprops_drop_kdtree : ∀ f ∈ Gen.Units.opFacts, f.cls = "Dotprops" → f.dropsKdTree = true := by decide
 
+/-! ## 12. `config.add_units = True`: unit-carrying properties -/
+
+/-- **gen_add_units.** In the current source the `add_units` wrapper multiplies the raw value by
+`np.power(self.units, power)` — the *quantity* (magnitude included), not the bare unit —, only for neurons with
+non-dimensionless units, and compacts under `if compact:`; the decorated properties carry the power of their
+dimension: cable length 1, surface area 2, volumes 3. -/
+theorem gen_add_units :
+    Gen.Units.addUnitsFactor = "np.power(self.units, power)" ∧
+    Gen.Units.addUnitsGuard = "config.add_units and self.has_units and (not self.units.dimensionless)" ∧
+    Gen.Units.addUnitsCompactsWhenAsked = true ∧
+    addUnitsPower "TreeNeuron" "cable_length" = some 1 ∧ addUnitsPower "TreeNeuron" "surface_area" = some 2 ∧
+    addUnitsPower "TreeNeuron" "volume" = some 3 ∧ addUnitsPower "MeshNeuron" "volume" = some 3 ∧
+    addUnitsPower "VoxelNeuron" "volume" = some 3 := by decide
+
+/-- **add_units_scale_invariant.** A quantity of dimension length^`d` (its raw value scales with `k^d` when the
+coordinates are multiplied / divided by a number `k ≠ 0`) is reported by an `@add_units(power=d)` property as the same
+physical quantity before and after scaling — per axis too —, for every prefix `to_compact` picks. -/
+theorem add_units_scale_invariant {n m : Neuron} {k : Rat} {p : Int} (hk : n.kind ≠ .voxel) (d : Nat) (raw : Rat) :
+    (mul n (.s k) p = some m → addUnitsPhys d m.units (raw * k ^ d) = addUnitsPhys d n.units raw) ∧
+    (div n (.s k) p = some m → addUnitsPhys d m.units (raw / k ^ d) = addUnitsPhys d n.units raw) :=
+  ⟨fun h => addUnitsPhys_mul hk h d raw, fun h => addUnitsPhys_div hk h d raw⟩
+
+/-- the checker the driver evaluates on the reported quantity (converted to base units by pint) is exact at tolerance 0 -/
+theorem addUnitsB_sound (d : Nat) (u : Units) (raw : Rat) (q : V3) :
+    addUnitsB 0 d u raw q = true ↔ q = addUnitsPhys d u raw :=
+  addUnitsB_zero d u raw q
+
+-- the seeded change `res * self.units.units ** power` (bare unit) on an `8 nm` skeleton with raw cable length 5:
+-- 5 nm instead of 40 nm
+example : addUnitsPhys 1 ⟨V3.rep 8, .metre (-9)⟩ 5 = V3.rep (40 * pow10 (-9)) ∧
+    addUnitsPhys 1 ⟨V3.rep 1, .metre (-9)⟩ 5 ≠ addUnitsPhys 1 ⟨V3.rep 8, .metre (-9)⟩ 5 := by decide +kernel
+
+/-- **gen_make_dotprops_metadata.** In `make_dotprops` every neuron branch hands `name` and `id` (and `units`, for
+skeletons, meshes and dotprops; the voxel branch re-expresses the unit) to the new Dotprops *before* its first `return`
+— the `k = 0 / None` early return of the skeleton branch included — which is the `construct` class of
+`metadata_preserved`. -/
+theorem gen_make_dotprops_metadata :
+    (∀ c ∈ ["TreeNeuron", "MeshNeuron", "Dotprops"], ∃ e ∈ Gen.Units.makeDotpropsMeta,
+      e.1 = c ∧ e.2.1 = true ∧ "units" ∈ e.2.2 ∧ "name" ∈ e.2.2 ∧ "id" ∈ e.2.2) ∧
+    (∃ e ∈ Gen.Units.makeDotpropsMeta, e.1 = "VoxelNeuron" ∧ e.2.1 = true ∧ "name" ∈ e.2.2 ∧ "id" ∈ e.2.2) := by
+  decide
+
 /-- **gen_unit_handling.** Further literals of the current source that the model hard-wires and the property depends
 on: `convert_units` multiplies by `n.units.to(to).magnitude`; `to_neuron_space` converts the length to
 `neuron.units`, divides by `neuron.units.magnitude` and rounds with `round_smart` (default precision 8), and rejects
